@@ -59,6 +59,7 @@ var docs = map[string]string{
 	// first and last letters of the index; several events of one kind at one place in one year (orderings that tie easily)
 	"D6": dead("I1", "Aaron /Abbott/", "1 Jan 1800", "Tietown, England", "1 RESI", "2 DATE 3 Mar 1841", "2 PLAC Tietown, England", "1 RESI", "2 DATE 9 Sep 1841", "2 PLAC Tietown, England", "1 RESI", "2 DATE 1841", "2 PLAC Tietown, England", "1 FAMS @F1@", "1 FAMS @F2@") +
 		dead("I2", "Zoe /Zimmer/", "2 Feb 1802", "Tietown, England", "1 FAMS @F1@") + dead("I3", "Zelda /zola/", "3 Mar 1803", "Tietown, England", "1 FAMS @F2@") + dead("I4", "Yan /Young/", "4 Apr 1830", "Tietown, England", "1 FAMC @F1@") +
+		dead("I5", "John /Smith/ Jr.", "5 May 1840", "") + dead("I6", "John /Smith/ Jr", "6 Jun 1841", "") + dead("I7", "-John /Smith/-", "7 Jul 1842", "") +
 		"0 @F1@ FAM\n1 HUSB @I1@\n1 WIFE @I2@\n1 CHIL @I4@\n1 MARR\n2 DATE 5 May 1825\n2 PLAC Tietown, England\n0 @F2@ FAM\n1 HUSB @I1@\n1 WIFE @I3@\n1 MARR\n2 DATE 6 Jun 1825\n2 PLAC Tietown, England\n",
 }
 
@@ -157,7 +158,11 @@ type kase struct {
 	Devs   []vsched.Dev `json:"schedule,omitempty"`
 	MapRev bool         `json:"map_reverse,omitempty"`
 	Bound  int          `json:"bound,omitempty"`
+	CLI    bool         `json:"cli,omitempty"`            // names: through the built `gedcom publish` command
+	Shared bool         `json:"shared_options,omitempty"` // histories: one options struct for all publishings
 }
+
+var cliBinary = filepath.Join(vlib.VerifDir, ".build", "gedcom-bin-c19")
 
 type finding struct{ sig, what string }
 
@@ -201,7 +206,19 @@ func judgeNames(k kase) (fs []finding) {
 		fs = append(fs, finding{sig, what})
 	}
 	ghtml.VerifResetSurnames() // every names case starts from the state of a fresh process
-	w, err := pub.Publish(decode(k.Doc), pub.Options(k.Mask, vis(k.Living)), k.Jobs, 0)
+	var w *pub.MemWriter
+	var err error
+	if k.CLI {
+		var refused bool
+		var msg string
+		w, refused, msg = pub.CLIPublish(cliBinary, docs[k.Doc], k.Living, k.Mask, k.Jobs)
+		if refused {
+			add("cli:publish-fails", msg)
+			return
+		}
+	} else {
+		w, err = pub.Publish(decode(k.Doc), pub.Options(k.Mask, vis(k.Living)), k.Jobs, 0)
+	}
 	if err != nil {
 		add("publish-returns-error", err.Error())
 	}
@@ -256,7 +273,7 @@ func judgeNames(k kase) (fs []finding) {
 		}
 	}
 	// confinement through the real DirectoryFileWriter, once per configuration of the full site
-	if k.Mask == 63 {
+	if k.Mask == 63 && !k.CLI {
 		root, _ := os.MkdirTemp("/dev/shm", "c19-")
 		defer os.RemoveAll(root)
 		out := filepath.Join(root, "site", "out")
@@ -466,10 +483,15 @@ func judgeHistory(k kase) (fs []finding) {
 }
 
 func judgeHistoryHere(k kase) (fs []finding) {
+	shared := pub.Options(k.Mask, vis(k.Living))
 	for i, d := range k.Seq {
 		doc := decode(d)
 		before := doc.String()
-		w, err := pub.Publish(doc, pub.Options(k.Mask, vis(k.Living)), k.Jobs, 0)
+		opt := pub.Options(k.Mask, vis(k.Living))
+		if k.Shared {
+			opt = shared // the caller's one options value, used for every publishing
+		}
+		w, err := pub.Publish(doc, opt, k.Jobs, 0)
 		if err != nil {
 			fs = append(fs, finding{"publish-returns-error", err.Error()})
 		}
@@ -539,6 +561,17 @@ func units(tier string) []kase {
 	for _, s := range seqs {
 		for _, jobs := range []int{1, 2} {
 			out = append(out, kase{Part: "histories", Seq: s, Mask: 63, Living: "show", Jobs: jobs})
+		}
+		if len(s) == 2 {
+			out = append(out, kase{Part: "histories", Seq: s, Mask: 63, Living: "show", Jobs: 1, Shared: true}, kase{Part: "histories", Seq: s, Mask: 63, Living: "hide", Jobs: 1, Shared: true})
+		}
+	}
+	// names and closure through the command line
+	for _, d := range []string{"D1", "D2", "D6"} {
+		for _, living := range []string{"show", "hide", "placeholder"} {
+			for _, mask := range []int{63, 62, 61, 59, 55, 1, 2, 4} {
+				out = append(out, kase{Part: "names", Doc: d, Mask: mask, Living: living, Jobs: 1, CLI: true})
+			}
 		}
 	}
 	// faults: default schedule for every k and jobs; every schedule within the bound on D1
